@@ -490,3 +490,27 @@ func sentinelError(v ssa.Value) bool {
 	}
 	return true
 }
+
+// mutatedArg: the collection a mutating library call (sort.Sort, sort.Slice, copy ...) writes through: its first
+// argument, seen through the interface box and through adapters that share the backing array (sort.Reverse,
+// sort.StringSlice / sort.IntSlice conversions).
+func mutatedArg(cc *ssa.CallCommon) ssa.Value {
+	v := stripIface(cc.Args[0])
+	for i := 0; i < 4; i++ {
+		switch x := v.(type) {
+		case *ssa.Call:
+			if calleeName(&x.Call) == "sort.Reverse" && len(x.Call.Args) == 1 {
+				v = stripIface(x.Call.Args[0])
+				continue
+			}
+		case *ssa.ChangeType:
+			v = x.X
+			continue
+		case *ssa.MakeInterface:
+			v = x.X
+			continue
+		}
+		break
+	}
+	return v
+}
